@@ -44,6 +44,10 @@ def plan(tier):
         if cfg['d'] == 2 and cfg['n_inner'] == 1 and cfg['storage'] == 'Batch' and cfg['names'] == 'str' \
                 and cfg['imputer'] == 'joint' and cfg['model'] != 'scalar':
             tasks.append((dict(cfg, oscale=True), 4, 0, False, 2))
+    # a model that returns one pre-allocated output dict, overwritten in place at every call: predictions the explainer
+    # keeps by reference must have been consumed before the model is called again
+    for cfg in sc.buffer_configs('sage'):
+        tasks.append((cfg, 4, 1 if cfg['storage'] == 'Geometric' else 0, False, 2))
     tasks.sort(key=lambda t: -(t[2] or 0))
     return tasks
 
